@@ -23,6 +23,7 @@ META["explanation"] += ' Also evaluated here: the ready-buffer rules (R13.1, R13
 META["explanation"] += " Poll functions that build Pending without polling anything (other than eyeball's audited poll leaf) are included: their Pending is reported as not caused by an input (a hand-rolled waker list whose wake discipline no rule verifies)."
 META["explanation"] += ' Shared with C08: R08.2 / R08.4 (one long-lived Sender that is never cloned, moved out or kept from being dropped - mem::forget / ptr::read around the vector leave the channel open and parked streams are never woken). Termination memories (see C09 R09.18) are understood by the typestate.'
 META["explanation"] += " R14.2 plumbing-forwards-the-context: the future wrappers excluded from the typestate poll the wrapped future with the caller's context itself (not one rebuilt around a remembered waker)."
+META["explanation"] += ' R14.5 a vector subscriber stream does not answer Pending while one of its fields holds diffs already taken out of the channel.'
 
 
 def run(ctx):
@@ -56,6 +57,7 @@ def run(ctx):
         wakers.check_rearm(ctx, "R14.3", f, sites)
     floor = 2 + (6 if UT in have else 0) + (2 if (EY in have and ctx.has_async) else 0)
     ctx.floor("R14.1", n, floor)
+    r14_5(ctx)
     # the adapters return Pending whenever the source is Pending, without looking at their ready buffers again: that is only right
     # because nothing is parked there across such a return (single diffs: drained at the top of the loop; batches: cannot buffer)
     if UT in have:
@@ -93,3 +95,72 @@ def im_stream_typestate(ctx):
             continue
         wakers.check_poll_fn(ctx, "R14.1", f, sites)
         wakers.check_rearm(ctx, "R14.3", f, sites)
+
+
+def r14_5(ctx):
+    """a vector subscriber stream does not answer Pending while it holds diffs it has already taken out of the channel: nothing will
+    wake the task for them.  For every field of the stream that can hold diffs (a collection / iterator of VectorDiff, or a state
+    enum with such a variant), each path to a Pending answer carries the fact that the field is empty / in a variant without
+    diffs."""
+    F = ctx.facts
+    if IM not in set(F.crates):
+        return
+    n = 0
+    for f in F.find(crate=IM, name="poll_next"):
+        st = (f.raw.get("self_ty") or "")
+        if f.raw.get("impl_trait") != "futures_core::Stream" or "VectorSubscriber" not in st or not f.built:
+            continue
+        adt = F.adt(IM, st.split("<")[0])
+        if adt is None:
+            continue
+        b = wakers.poll_body(F, f)
+        holders = []
+        for fd in adt["variants"][0]["fields"]:
+            ty = str(fd["ty"])
+            if "ReusableBox" in ty or "Receiver<" in ty:
+                continue
+            if "VectorDiff<" in ty:
+                holders.append((fd["name"], None))
+                continue
+            inner = F.adt(IM, ty.split("<")[0])
+            if inner is not None and len(inner["variants"]) > 1:
+                with_diffs = {v["name"] for v in inner["variants"] if any("VectorDiff<" in str(x["ty"]) for x in v["fields"])}
+                if with_diffs:
+                    holders.append((fd["name"], with_diffs))
+        if not holders:
+            ctx.holds("R14.5", f, "pending-with-parked-diffs", f.loc(), "the stream has no field that can hold diffs")
+            continue
+        # Pending answers: explicit Poll::Pending aggregates and returns that forward a poll result
+        sites = [(blk, t) for blk, t in b.calls() if wakers.is_poll_call(t)]
+        site_by_loc = {(blk, len(b.blocks[blk]["stmts"])): "x" for blk, t in sites}
+        pend_locs = []
+        for loc, kind, payload in blocks_assigning_ret(b):
+            if kind == "assign":
+                rv = payload
+                if rv["k"] == "agg" and rv.get("adt") == "std::task::Poll" and rv.get("variant") == "Pending":
+                    pend_locs.append(loc)
+                else:
+                    e = b.expr_of_rv(rv, 10, ())
+                    if wakers.forwarded_site(e, site_by_loc):
+                        pend_locs.append(loc)
+            elif kind == "call" and loc in site_by_loc:
+                pend_locs.append(loc)
+        for name, with_diffs in holders:
+            for loc in pend_locs:
+                n += 1
+                facts = conds.bare(conds.dominating_facts(b, loc[0]))
+                if with_diffs is None:
+                    ok = any(fc[0] == "truth" and fc[2] is True and fc[1][0] == "call" and ecall_matches(fc[1], r"::is_empty$") and mentions_field(fc[1], name) for fc in facts) or \
+                        any(bl in b.blocks and False for bl in ())
+                    # .. or the field was emptied (mem::take / drain / clear) on the way here and not refilled
+                    if not ok:
+                        takes = [blk for blk, t in b.calls(r"^std::mem::take$|::clear$|::drain$") if t["args"] and mentions_field(b.expr_of_op(t["args"][0]), name)]
+                        writes = [l2[0] for l2, s_ in assigns_to_field(b, name)]
+                        ok = bool(takes) and any(b.dominates(tb, loc[0]) for tb in takes) and not any(w in b.reachable_from(tb) and loc[0] in b.reachable_from(w) for tb in takes for w in writes)
+                else:
+                    vs = [fc for fc in facts if fc[0] == "variant" and mentions_field(fc[1], name)]
+                    ok = bool(vs) and all(not (fc[2] & with_diffs) for fc in vs)
+                ctx.verdict(ok, "R14.5", f, "pending-with-parked-diffs:%s" % name, b.line_at(loc), "a Pending answer is only reachable where `%s` holds no diffs" % name,
+                            "`%s` can answer Pending while `%s` still holds diffs that were already taken out of the channel (they are only looked at after a *new* message has arrived): the task is not woken for them - "
+                            "a subscriber that polls until Pending has not seen every update although nothing further will happen" % (f.path, name))
+    return n
